@@ -835,7 +835,7 @@ func runC04(c *Ctx) {
 				c.Count("encap:mut-accepted")
 				can := g.Marshal()
 				g2, err2 := type3.UnmarshalEncapKey(can)
-				c.Direct(len(can) <= len(m) && err2 == nil && eq(g2.Marshal(), can), "EncapKey canonical re-encoding", map[string]any{"b": hx(m)})
+				c.Direct(len(can) <= len(m) && eq(can, m[:len(can)]) && err2 == nil && eq(g2.Marshal(), can), "EncapKey canonical re-encoding", map[string]any{"b": hx(m)})
 			} else {
 				c.Count("encap:mut-rejected")
 			}
